@@ -1341,6 +1341,33 @@ var vfQsDirected = []vfQsDirectedScript{
 	// b is reset right after the probe: RESET_STREAM must state the bytes the probe carried
 	{vfQsProbeSetup, vfQsProbe(0, 1, true)},
 	{vfQsProbeSetup, vfQsProbe(60, 2, true)},
+	// A PTO probe after an ACKNOWLEDGED RESET_STREAM: written bytes stay unsent behind a small
+	// MAX_DATA, the stream is reset (Reset / STOP_SENDING + Close), the RESET_STREAM is acknowledged,
+	// the stream is still registered (its receive side is unfinished), then an unrelated
+	// ack-eliciting packet is in flight and the PTO fires: nothing more may be sent for the stream.
+	{vfQsBlockedSetup, vfQsProbeAfterReset(false)},
+	{vfQsBlockedSetup, vfQsProbeAfterReset(true)},
+}
+
+func vfQsProbeAfterReset(byPeer bool) func(r *vfQsRun) {
+	return func(r *vfQsRun) {
+		x := r.streams[0]
+		md := int(r.grant)
+		r.write(x, md+1+r.rnd.Intn(9)) // [0, md) goes out, the rest is blocked by MAX_DATA
+		r.appFlush(x)
+		if byPeer {
+			r.peer(map[string]any{"e": "p_stop", "s": x.k, "code": 11}, x, debugFrameStopSending{id: x.id, code: 11})
+			r.closeStream(x)
+		} else {
+			r.appReset(x, 7)
+		}
+		r.pAck(r.unackedList()) // RESET_STREAM acknowledged
+		for i := 0; i < 2 && !r.dead; i++ {
+			r.pings(1)
+			r.tick()
+		}
+		r.pAck(r.unackedList())
+	}
 }
 
 // vfQsProbeSetup: three local streams, peer MAX_DATA 20000 (more than the initial congestion
